@@ -360,5 +360,10 @@ func isLockExpired(lock *Lock, currentTs uint64) bool {
 	if lock.TTL == 0 {
 		return false
 	}
-	return currentTs >= lock.Ts+lock.TTL
+	expiry := lock.Ts + lock.TTL
+	if expiry < lock.Ts {
+		// start + ttl does not fit in 64 bits: the lock never expires.
+		return false
+	}
+	return currentTs >= expiry
 }
